@@ -216,7 +216,8 @@ theorem step_links (H : Bytes → D) (verify : Variant) (limit : Option Nat) (st
     split at h
     · cases h
     · injection h with h; subst h
-      rw [advance_links, applyTask_links]
+      rw [advance_links]
+      split <;> simp [applyTask_links]
   | cancel =>
     simp only [step] at h
     injection h with h; subst h
@@ -941,7 +942,8 @@ theorem step_files (H : Bytes → D) (v : Variant) (hs : v.staged = true) (limit
     split at h
     · cases h
     · injection h with h; subst h
-      rw [advance_files v hs, applyTask_files H v hs]
+      rw [advance_files v hs]
+      split <;> simp [applyTask_files H v hs]
   | cancel =>
     simp only [step] at h
     injection h with h; subst h
